@@ -41,6 +41,7 @@ struct G<'a, 'b> {
     assigned: Vec<String>,
     counter: usize,
     loop_vars: Vec<String>,
+    forms: Vec<&'static str>,
 }
 
 impl<'a, 'b> G<'a, 'b> {
@@ -181,6 +182,7 @@ impl<'a, 'b> G<'a, 'b> {
                 if in_loop.is_none() {
                     self.assigned.push(s);
                 }
+                self.forms.push(if form == 1 { "scalar -->" } else { "scalar <--" });
                 vec![Stmt::Assign { id, lhs, op: AssignOp::Signal, rhs, reversed: form == 1 }]
             }
             // array element: loop variable or literal index
@@ -199,6 +201,7 @@ impl<'a, 'b> G<'a, 'b> {
                 let lhs = Expr::Var { id: self.ids.next(), name: a.clone(), access: vec![Access::Index(ix)] };
                 let rhs = self.rhs(2);
                 self.expected.push(Expected { anchor: id, signal: Some(a), access: text });
+                self.forms.push("array element");
                 vec![Stmt::Assign { id, lhs, op: AssignOp::Signal, rhs, reversed: self.t.chance(60) }]
             }
             // declaration with `<--` initialiser (top level only: a declaration in a loop is not Circom)
@@ -214,6 +217,7 @@ impl<'a, 'b> G<'a, 'b> {
                     self.assigned.push(s.clone());
                     syms.push(DeclSym { id: self.ids.next(), sub_id: self.ids.next(), name: s, dims: vec![], init: Some(rhs) });
                 }
+                self.forms.push(if n > 1 { "declaration with several `<--` initialisers" } else { "declaration with `<--` initialiser" });
                 vec![Stmt::Decl { id, kind: DeclKind::Signal(SigKind::Intermediate, vec![]), syms, init_op: AssignOp::Signal }]
             }
             // component input
@@ -234,6 +238,7 @@ impl<'a, 'b> G<'a, 'b> {
                 let id2 = self.ids.next();
                 let lhs2 = Expr::Var { id: self.ids.next(), name: c, access: vec![Access::Field("b".into())] };
                 let rhs2 = self.rhs(1);
+                self.forms.push("component input");
                 vec![d, Stmt::Assign { id, lhs, op: AssignOp::Signal, rhs, reversed: false }, Stmt::Assign { id: id2, lhs: lhs2, op: AssignOp::Constrain, rhs: rhs2, reversed: false }]
             }
             // tuple assignment with `_`
@@ -254,6 +259,7 @@ impl<'a, 'b> G<'a, 'b> {
                 self.assigned.push(s2);
                 // `(e1, e2, e3) --> (s1, _, s2)` as well
                 let reversed = self.t.chance(100);
+                self.forms.push(if reversed { "tuple -->" } else { "tuple <--" });
                 vec![Stmt::Assign { id: self.ids.next(), lhs, op: AssignOp::Signal, rhs, reversed }]
             }
             // tuple declaration form
@@ -267,6 +273,7 @@ impl<'a, 'b> G<'a, 'b> {
                 let rhs = Expr::Tuple { id: self.ids.next(), elems: vec![e1, e2] };
                 self.assigned.push(s1.clone());
                 self.assigned.push(s2.clone());
+                self.forms.push("tuple declaration");
                 vec![Stmt::TupleDecl {
                     id,
                     kind: DeclKind::Signal(SigKind::Intermediate, vec![]),
@@ -302,6 +309,7 @@ impl<'a, 'b> G<'a, 'b> {
                     self.expected.push(Expected { anchor: call_id, signal: None, access: String::new() });
                 }
                 let params = if tname == "One" { vec![] } else { vec![k] };
+                self.forms.push(if nsig == 2 { "anonymous component, two `<--` inputs" } else { "anonymous component, one `<--` input" });
                 let anon = Expr::Anon { id: call_id, name: tname, params, inputs, names: Some(names) };
                 let lhs = self.var(&s);
                 let id = self.ids.next();
@@ -397,11 +405,12 @@ struct Case {
     constraints: Vec<ConstraintStmt>,
     custom: bool,
     nested: usize,
+    forms: Vec<&'static str>,
 }
 
 fn gen_case(t: &mut Tape) -> Case {
     let custom = t.chance(25);
-    let mut g = G { t, ids: Ids::default(), expected: vec![], constraints: vec![], inputs: vec![], assigned: vec![], counter: 0, loop_vars: vec![] };
+    let mut g = G { t, ids: Ids::default(), expected: vec![], constraints: vec![], inputs: vec![], assigned: vec![], counter: 0, loop_vars: vec![], forms: vec![] };
     let mut decls: Vec<Stmt> = Vec::new();
     let nin = 1 + g.t.below(3);
     for i in 0..nin {
@@ -437,7 +446,7 @@ fn gen_case(t: &mut Tape) -> Case {
         Ok(mask) => String::from_utf8_lossy(&src.bytes().enumerate().map(|(i, c)| if mask[i] && c != b'\n' { b' ' } else { c }).collect::<Vec<u8>>()).to_string(),
         Err(_) => src.clone(),
     };
-    Case { src, r, blank, expected: g.expected, constraints: g.constraints, custom, nested }
+    Case { src, r, blank, expected: g.expected, constraints: g.constraints, custom, nested, forms: g.forms }
 }
 
 fn case(ctx: &Ctx, tape: &[u8], rec: &Rec) -> Verdict {
@@ -469,6 +478,9 @@ fn case(ctx: &Ctx, tape: &[u8], rec: &Rec) -> Verdict {
         return Ok(());
     }
     rec.class_n("expected_findings", c.expected.len() as u64);
+    for f in &c.forms {
+        rec.class(&format!("form:{f}"));
+    }
     if c.expected.len() >= 3 && c.nested >= 1 {
         rec.nontrivial(fnv(c.src.as_bytes()));
     }
